@@ -83,7 +83,7 @@ fn native_for<G: ark_ec::AffineRepr + 'static>(kind: &str, rp: &serde_json::Valu
     match kind {
         "c10" => {
             let case: scen_c10::IppCase = serde_json::from_value(rp["case"].clone()).unwrap();
-            replay::c10_native::<G>(&case, seed, m)
+            replay::c10_native::<G>(&case, seed, m, torsion)
         }
         "c13" => replay::c13_native::<G>(rp["variant"].as_str().unwrap(), seed, m),
         "c03" | "c18" => replay::diff_native::<G>(&shape(), seed, torsion),
@@ -135,6 +135,24 @@ fn tasks_for(prop: &str, tier: &str, seed: u64) -> Vec<Task> {
     match prop {
         "C01" => {
             let mut out = vec![];
+            if thorough {
+                // exhaustive small scope: every call sequence with <= 4 first-phase and <= 2 second-phase calls
+                for (k, shape) in shapes::exhaustive_skeletons(4, 2).into_iter().enumerate() {
+                    let c = ["secq256k1", "zorro", "curve25519"][k % 3].to_string();
+                    let pad = shape.padded();
+                    let (cp, cv) = [(pad, pad), (pad + 1, 2 * pad), (2 * pad, pad)][k % 3];
+                    out.push(Task {
+                        name: format!("C01:{}:{}:{}-{}", shape.name, c, cp, cv),
+                        replay: scen_r1cs::replay_json(&shape, &Default::default(), seed, cp, cv),
+                        run: Box::new(move || {
+                            use scen_r1cs::job_completeness_soundness as f;
+                            let mut j = on_curve!(c.as_str(), f, "C01", &shape, &Default::default(), seed, cp, cv, &c);
+                            j.scenario = format!("C01:{}:{}:cap{}-{}", shape.name, c, cp, cv);
+                            j
+                        }),
+                    });
+                }
+            }
             for (k, shape) in shapes::c01_shapes(thorough, seed).into_iter().enumerate() {
                 // rotate the curve of the shadow over the shapes in the quick tier
                 let cs: Vec<&str> = if thorough { curves.clone() } else { vec![["secq256k1", "zorro", "curve25519"][k % 3]] };
@@ -160,6 +178,29 @@ fn tasks_for(prop: &str, tier: &str, seed: u64) -> Vec<Task> {
         }
         "C02" => {
             let mut out = vec![];
+            if thorough {
+                // exhaustive small scope: a symbolic error on every constraint and every gate wire of every call
+                // sequence with <= 3 first-phase and <= 2 second-phase calls (curve rotated)
+                for (k, shape) in shapes::exhaustive_skeletons(3, 2).into_iter().enumerate() {
+                    let (a, b) = shape.gates();
+                    let err = shapes::all_errors(&shape);
+                    if a + b == 0 && err.con.is_empty() {
+                        continue;
+                    }
+                    let c = ["secq256k1", "zorro", "curve25519"][k % 3].to_string();
+                    let pad = shape.padded();
+                    out.push(Task {
+                        name: format!("C02:all_errors_{}:{}", shape.name, c),
+                        replay: scen_r1cs::replay_json(&shape, &err, seed, pad, pad),
+                        run: Box::new(move || {
+                            use scen_r1cs::job_completeness_soundness as f;
+                            let mut j = on_curve!(c.as_str(), f, "C02", &shape, &err, seed, pad, pad, &c);
+                            j.scenario = format!("C02:all_errors_{}:{}", shape.name, c);
+                            j
+                        }),
+                    });
+                }
+            }
             for (k, (shape, err)) in shapes::c02_cases(thorough, seed).into_iter().enumerate() {
                 let cs: Vec<&str> = if thorough { curves.clone() } else { vec![["secq256k1", "zorro", "curve25519"][k % 3]] };
                 for c in cs {
@@ -355,6 +396,23 @@ fn tasks_for(prop: &str, tier: &str, seed: u64) -> Vec<Task> {
         }
         "C05" => {
             let mut out = vec![];
+            // concrete companion: coefficient / constant deviations natively, alone and as a +d / -d pair in one batch
+            for (ci, case) in scen_c05::c05_cases(false).into_iter().filter(|c| matches!(c.dev, scen_c05::Dev::Coeff(_) | scen_c05::Dev::Const(_))).enumerate() {
+                let c = ["secq256k1", "zorro", "curve25519"][(ci + seed as usize) % 3].to_string();
+                let replay = serde_json::json!({"kind": "c05", "case": case, "seed": seed});
+                out.push(Task {
+                    name: format!("C05:native_{}:{}", case.name, c),
+                    replay: replay.clone(),
+                    run: Box::new(move || {
+                        let checks = match c.as_str() {
+                            "secq256k1" => scen_c05::c05_native::<Secq>(&case, seed, HashMap::new(), None),
+                            "zorro" => scen_c05::c05_native::<Zorro>(&case, seed, HashMap::new(), None),
+                            _ => scen_c05::c05_native::<Ed>(&case, seed, HashMap::new(), Some(ed_torsion())),
+                        };
+                        native_job("C05", &format!("native_{}", case.name), &c, seed, checks, replay)
+                    }),
+                });
+            }
             for (k, case) in scen_c05::c05_cases(thorough).into_iter().enumerate() {
                 let cs: Vec<&str> = if matches!(case.dev, scen_c05::Dev::ReplaceVTorsion(_)) { vec!["curve25519"] } else if thorough { curves.clone() } else { vec![["secq256k1", "zorro", "curve25519"][k % 3]] };
                 for c in cs {
@@ -455,6 +513,26 @@ fn tasks_for(prop: &str, tier: &str, seed: u64) -> Vec<Task> {
         }
         "C10" => {
             let mut out = vec![];
+            // concrete companion: negative cases on the created proof (wrong product, shifted scalars, forged
+            // last round, wrong lengths) on every curve, with small-order shifts of P on the cofactor curve
+            for case in scen_c10::c10_cases(false).into_iter().filter(|c| ["honest_k0_symfactors", "honest_k2_symfactors", "honest_k3_ones_zeros"].contains(&c.name.as_str())) {
+                for c in ["secq256k1", "zorro", "curve25519"] {
+                    let (case, c) = (case.clone(), c.to_string());
+                    let replay = serde_json::json!({"kind": "c10", "case": case, "seed": seed});
+                    out.push(Task {
+                        name: format!("C10:native_negatives_{}:{}", case.name, c),
+                        replay: replay.clone(),
+                        run: Box::new(move || {
+                            let checks = match c.as_str() {
+                                "secq256k1" => replay::c10_native::<Secq>(&case, seed, HashMap::new(), None),
+                                "zorro" => replay::c10_native::<Zorro>(&case, seed, HashMap::new(), None),
+                                _ => replay::c10_native::<Ed>(&case, seed, HashMap::new(), Some(ed_torsion())),
+                            };
+                            native_job("C10", &format!("native_negatives_{}", case.name), &c, seed, checks, replay)
+                        }),
+                    });
+                }
+            }
             for (k, case) in scen_c10::c10_cases(thorough).into_iter().enumerate() {
                 let cs: Vec<&str> = if thorough { curves.clone() } else { vec![["secq256k1", "zorro", "curve25519"][k % 3]] };
                 for c in cs {
@@ -583,6 +661,23 @@ fn main() {
                 let rhs = <Parameters as SWCurveConfig>::COEFF_A * x;
                 let (l, r): (num_bigint::BigUint, num_bigint::BigUint) = (lhs.into_bigint().into(), rhs.into_bigint().into());
                 println!("x={} mul_by_a(x)={} COEFF_A*x={} {}", a, l, r, if lhs == rhs { "equal" } else { "DIFFERENT" });
+                wrong |= lhs != rhs;
+            }
+            println!("REPLAY {}", if wrong { "REPRODUCED" } else { "NOT-REPRODUCED" });
+            std::process::exit(if wrong { 1 } else { 0 });
+        }
+        Some("zorro-add-b") => {
+            use ark_bulletproofs::curve::zorro::{Fq, Parameters};
+            use ark_ec::short_weierstrass::SWCurveConfig;
+            use ark_ff::PrimeField;
+            use core::str::FromStr;
+            let mut wrong = false;
+            for a in args.iter().skip(2) {
+                let x = Fq::from(num_bigint::BigUint::from_str(a).unwrap());
+                let lhs = <Parameters as SWCurveConfig>::add_b(x);
+                let rhs = <Parameters as SWCurveConfig>::COEFF_B + x;
+                let (l, r): (num_bigint::BigUint, num_bigint::BigUint) = (lhs.into_bigint().into(), rhs.into_bigint().into());
+                println!("x={} add_b(x)={} x+COEFF_B={} {}", a, l, r, if lhs == rhs { "equal" } else { "DIFFERENT" });
                 wrong |= lhs != rhs;
             }
             println!("REPLAY {}", if wrong { "REPRODUCED" } else { "NOT-REPRODUCED" });
